@@ -105,8 +105,18 @@ func poolAdd(c *core.Ctx, src string, data map[string]any, o Outcome) {
 	poolAddEntry(c, pooledEval{src: src, data: data, want: outcomeText(o.Out, o.Err)})
 }
 
+// poolPause keeps what is evaluated until resume() out of the sample (for cases that change their data in place
+// between renders: the sample holds the data by reference)
+func poolPause(c *core.Ctx) (resume func()) {
+	c.State["eval-pool-paused"] = true
+	return func() { delete(c.State, "eval-pool-paused") }
+}
+
 func poolAddEntry(c *core.Ctx, e pooledEval) {
 	src := e.src
+	if c.State["eval-pool-paused"] != nil {
+		return
+	}
 	if !replayChecks[c.Check.ID] || len(src) > 32<<10 || len(e.want) > 1<<20 || c.Section == "concurrent-replay" {
 		return
 	}
